@@ -29,7 +29,9 @@ REQUIRED = ["entries_injective", "einv_fresh", "bit_set_get", "bit_total", "serv
             "atoi_itoa_roundtrip", "atoi_fits_int", "index_strings_injective", "validated_entry_fields", "issued_entry_validates",
             "validated_entry_never_atoi_error", "wire_entries_distinct", "fact_entry_validate_order", "fact_entry_literal_and_strconv_sites",
             # validAt (NutsProofs.Props.C11ValidAt)
-            "revoked_whatever_valid_at", "received_revocation_refused_at_every_valid_at", "revoked_forever_network_at_every_valid_at"]
+            "revoked_whatever_valid_at", "received_revocation_refused_at_every_valid_at", "revoked_forever_network_at_every_valid_at",
+            # base URL changes (NutsProofs.Props.C11Rebase)
+            "slots_unique_across_url_changes", "entry_update_independent_of_base", "fact_entry_update_key"]
 
 ENTRY_RE = re.compile(r"(n\d+/\S+/\d+) (\d+) wf=(\w+)")
 
@@ -257,6 +259,35 @@ def oracle(ctx, ops, impl, max_index, min_left_min, max_age=900):
                 if bits != last_dl[(node, name)]:
                     report("C11:stored-list-differs-from-the-last-downloaded-list",
                            f"node {node} holds {sorted(bits)} for {name}; the list it downloaded last had {sorted(last_dl[(node, name)])}", i)
+        elif kind == "rebase":
+            # the node's public URL changed: positions stay unique (also against everything handed out before) and every
+            # entry handed out can be revoked
+            stats["base-url-changes"] += 1
+            m = re.match(r"rebase entries=\[(.*)\] revokes=\[(.*)\]", line)
+            if not m:
+                report("C11:rebase-line-malformed", line[:200], i)
+                continue
+            ents = [x.split() for x in m.group(1).split(" ; ") if " wf=" in x]
+            revs = m.group(2).split()
+            for k, (name, idx, wf) in enumerate(ents):
+                key = (node, name, int(idx) if idx.isdigit() else idx)
+                stats["entries-after-base-url-change"] += 1
+                if name.startswith("n"):
+                    stats["entries-after-base-url-change-on-existing-page"] += 1
+                if key in issued:
+                    report("C11:status-list-position-handed-out-twice",
+                           f"{key} returned again after the node's base URL changed to {op.get('raw')} (lines {issued[key]} and {i})", i)
+                issued[key] = i
+                if wf != "wf=true" or not idx.isdigit():
+                    report("C11:malformed-entry", line[:200], i)
+                    continue
+                if int(idx) > max_index:
+                    report("C11:status-list-index-beyond-bitstring", f"{key}", i)
+                if k < len(revs) and revs[k] == "ok":
+                    revoked.setdefault((node, name), set()).add(int(idx))
+                else:
+                    report("C11:issued-entry-cannot-be-revoked",
+                           f"{name}#{idx} was handed out after the base URL changed to {op.get('raw')}; Revoke answers {revs[k] if k < len(revs) else 'nothing'}", i)
         elif kind == "wire":
             # independent reference of the spec of StatusList2021Entry.Validate / strconv.Atoi / strconv.Itoa (64-bit int)
             stats["wire-cases"] += 1
@@ -597,7 +628,7 @@ def run_verifier_harness(ctx):
 
 def run(ctx):
     facts = ctx.facts()
-    thms = ctx.build_and_audit(["NutsProofs.Props.C11", "NutsProofs.Props.C11Wire", "NutsProofs.Props.C11ValidAt"])
+    thms = ctx.build_and_audit(["NutsProofs.Props.C11", "NutsProofs.Props.C11Wire", "NutsProofs.Props.C11ValidAt", "NutsProofs.Props.C11Rebase"])
     for r in REQUIRED:
         if not any(t.endswith("Props." + r) for t in thms):
             ctx.oblige("thm-present:" + r, False, "theorem missing or its module does not build")
